@@ -1,6 +1,7 @@
 // C10 — wide_integer behaves as an N-bit two's-complement integer for any N
 #pragma once
 #include "../floatval.h"
+#include "../sweep.h"
 #include "../scaledval.h"
 
 #include <bit>
@@ -74,6 +75,10 @@ struct Wide {
             // single-word storage (a built-in integer): a result that leaves the storage is built-in signed overflow (UB), outside the property
             mpz_class r = op == ADD ? mpz_class(za + zb) : op == SUB ? mpz_class(za - zb) : op == MUL ? mpz_class(za * zb) : op == SHL ? mpz_class(za << n)
                         : op == NEG ? mpz_class(-za) : op == INC ? mpz_class(za + 1) : op == DEC ? mpz_class(za - 1) : op == A_ADD ? mpz_class(za + zb) : op == A_SUB ? mpz_class(za - zb) : op == A_MUL ? mpz_class(za * zb) : mpz_class(0);
+            if (op == ADD_INT || op == MUL_INT) {
+                mpz_class zk = to_mpz(wrap_to<int>(zb));
+                r = op == ADD_INT ? mpz_class(za + zk) : mpz_class(za * zk);
+            }
             if (r != reduce(r) || (op == SHL && za < 0)) return o.discard("single-word-storage-overflow");
         }
         T a = make_rep<T>(za), b = make_rep<T>(zb);
